@@ -91,17 +91,7 @@ class ParseAPI(object):
         Parse a bip32 private key from a seed.
         Return a :class:`BIP32 <pycoin.key.BIP32Node.BIP32Node>` or None.
         """
-        pair = parse_colon_prefix(s)
-        if pair is None or pair[0] not in "HP":
-            return None
-        if pair[0] == "H":
-            try:
-                master_secret = h2b(pair[1])
-            except ValueError:
-                return None
-        else:
-            master_secret = pair[1].encode("utf8")  # type: ignore[assignment]
-        return self._network.keys.hd_seed(master_secret)
+        return self.bip32_seed(s)
 
     def bip32_prv(self, s: str) -> Any:
         """
